@@ -18,6 +18,7 @@ import PsutilModel.Proofs.C13Pct
 import PsutilModel.Proofs.C13Fine
 import PsutilModel.Proofs.C13Hist
 import PsutilModel.Proofs.C13GroupSpec
+import PsutilModel.Proofs.C13Bind
 import PsutilModel.Model.C13Gen
 namespace Psutil.C13
 open Psutil Psutil.C13.Spec Psutil.C13.Re
@@ -861,5 +862,92 @@ theorem C13_percent_stale_total_counterexample : ¬ C13_percent_current_total_Fu
 example : pctVals (runP cfg pcfg (.ok [4096, 0, 0, 0, 0, 0, 0]) (.error .valueError)
       [.pct "rss", .setMeminfo mi2, .vm, .pct "rss"] mi1 ⟨none⟩) = [some 100, none, none, some 50] := by
   decide +kernel
+
+/-! ## which process an object describes: PROCFS_PATH re-pointed between construction and call -/
+
+/-- obligation: `_pslinux.Process.__init__` captures the procfs root (`self._procfs_path =
+    get_procfs_path()`), nothing assigns it again, and the three read sites of the memory methods
+    (statm, smaps, smaps_rollup) open their file under THAT root — not under `get_procfs_path()`,
+    which is PROCFS_PATH at the time of the call -/
+theorem bcfg_good : bcfg.Good := by
+  constructor <;> decide
+
+theorem read_root_facts :
+    Gen.C13.readRoots = [("memory_info:statm", "self._procfs_path"), ("_read_smaps_file:smaps", "self._procfs_path"),
+                         ("_parse_smaps_rollup:smaps_rollup", "self._procfs_path")]
+      ∧ Gen.C13.procfsBinders = [("__init__", "get_procfs_path()")] := by decide
+
+/-- **C13_figures_describe_the_bound_process.** For EVERY world of procfs trees (any number; the
+    pid present or absent in each; any file contents), every history of `psutil.PROCFS_PATH = …`
+    assignments, `Process(pid)` constructions, `oneshot()` blocks and method calls (memory_info,
+    memory_full_info, memory_maps grouped or not, memory_percent of any name): every answer of an
+    object is the answer computed from the files of the ONE tree psutil pointed at when the object
+    was created — statm, smaps and smaps_rollup of the same process — wherever PROCFS_PATH points
+    when the call is made (`specRunB` never looks at the current root in a call). -/
+theorem C13_figures_describe_the_bound_process (e : Env) (w : World) (steps : List BStep) (cur : Nat) :
+    runB cfg bcfg e w steps ⟨cur, []⟩ = specRunB (fun t m => answerView cfg e t.view m) w steps cur [] :=
+  runB_eq_spec cfg bcfg bcfg_good e w steps ⟨cur, []⟩ (by intro o ho; cases ho)
+
+/-- … and those are the figures the property promises for that process: for every world of
+    kernel-side RECORDS (statm record, non-empty list of well-formed mappings, zombie or not, any
+    roll-up answer) rendered into procfs trees, in every such history `memory_info()` is the
+    bound process's page counts × page size, `memory_maps(grouped=False)` its mappings row by row,
+    and `memory_full_info()` from the per-mapping listing its sums (`figures`; the remaining
+    methods are the single-process clauses `C13_grouped_end_to_end`, `C13_percent`,
+    `C13_full_info_from_rollup` applied to the SAME bound tree, by the theorem above). -/
+theorem C13_history_figures (e : Env) (pw : List (Option PTree))
+    (hwf : ∀ p, some p ∈ pw → p.ms ≠ [] ∧ wfSmaps false p.ms = true ∧ ∀ m ∈ p.ms, fsConsistent e.probe m = true)
+    (steps : List BStep) (cur : Nat) :
+    runB cfg bcfg e (renderWorld pw) steps ⟨cur, []⟩
+      = specRunB (figures e (fun p m => answerView cfg e p.render.view m)) pw steps cur [] := by
+  rw [C13_figures_describe_the_bound_process]
+  unfold renderWorld
+  rw [specRunB_map]
+  apply specRunB_congr
+  intro i p hp m
+  obtain ⟨hne, hw, hfs⟩ := hwf p (treeAtG_mem pw i p hp)
+  cases m with
+  | info =>
+    show Ans.nums (memoryInfo cfg e.pagesize (renderStatm p.st)) = _
+    rw [(C13_statm e.pagesize p.st).1]; rfl
+  | maps =>
+    show Ans.rows (memoryMaps cfg e.probe p.zombie (renderSmaps p.ms)) = _
+    rw [C13_maps_roundtrip e.probe p.zombie p.ms hne hw hfs]; rfl
+  | full =>
+    cases hr : e.hasRollup with
+    | true => simp only [figures, hr, if_true]
+    | false =>
+      show Ans.nums (memoryFullInfo cfg e.hasRollup e.pagesize p.render.rollup (renderSmaps p.ms) (renderStatm p.st)) = _
+      rw [hr, C13_full_info_sums e.pagesize p.st p.ms p.render.rollup hne hw]
+      simp only [figures, hr]; rfl
+  | grouped => rfl
+  | pct mt tot => rfl
+
+/-- what-if: `_read_smaps_file` opening `f"{get_procfs_path()}/{self.pid}/smaps"` (statm and the
+    roll-up still under the captured root) -/
+def smapsFromCurrentCfg : BCfg := { bcfg with smapsSrc := .current }
+
+def rowsOf : Ans → Option (List Row)
+  | .rows (.ok r) => some r
+  | _ => none
+
+def smapsA : Bytes := [49, 45, 50, 32, 114, 32, 48, 32, 48, 58, 48, 32, 48, 32, 10, 82, 115, 115, 58, 32, 52, 32, 107, 66, 10]   -- "1-2 r 0 0:0 0 \nRss: 4 kB\n"
+def smapsB : Bytes := [51, 45, 52, 32, 114, 32, 48, 32, 48, 58, 48, 32, 48, 32, 10, 82, 115, 115, 58, 32, 57, 32, 107, 66, 10]   -- "3-4 r 0 0:0 0 \nRss: 9 kB\n"
+def worldAB : World := [some ⟨[], smapsA, .enoent, false⟩, some ⟨[], smapsB, .enoent, false⟩]
+def envAB : Env := ⟨4096, true, fun _ => .missing⟩
+
+/-- … then the theorem above is false: an object created under tree 0 and asked after PROCFS_PATH
+    was re-pointed to tree 1 lists the mappings of the OTHER tree's process (same pid number in
+    another PID namespace), while `memory_info()` keeps describing its own (= seeded C13-5). -/
+theorem C13_smaps_from_current_root_counterexample :
+    (runB cfg smapsFromCurrentCfg envAB worldAB [.new, .point 1, .call 0 .maps] ⟨0, []⟩).map rowsOf
+        = [none, none, some [⟨[51, 45, 52], [114], cfg.anonName, [9216, 0, 0, 0, 0, 0, 0, 0, 0, 0]⟩]]
+      ∧ (specRunB (fun t m => answerView cfg envAB t.view m) worldAB [.new, .point 1, .call 0 .maps] 0 []).map rowsOf
+        = [none, none, some [⟨[49, 45, 50], [114], cfg.anonName, [4096, 0, 0, 0, 0, 0, 0, 0, 0, 0]⟩]] := by
+  constructor <;> decide
+
+/-- non-vacuity: the code as it is, same world and history — the object keeps listing tree 0 -/
+example : (runB cfg bcfg envAB worldAB [.new, .point 1, .call 0 .maps] ⟨0, []⟩).map rowsOf
+    = [none, none, some [⟨[49, 45, 50], [114], cfg.anonName, [4096, 0, 0, 0, 0, 0, 0, 0, 0, 0]⟩]] := by decide
 
 end Psutil.C13
